@@ -270,8 +270,13 @@ func (it *Interp) hardArith(q *term.Term) bool {
 		}
 		seen[t] = true
 		switch t.Op {
-		case term.OpBvMul, term.OpBvUDiv, term.OpBvURem, term.OpBvSDiv, term.OpBvSRem:
+		case term.OpBvUDiv, term.OpBvURem, term.OpBvSDiv, term.OpBvSRem:
 			if t.W >= 32 {
+				return true
+			}
+		case term.OpBvMul:
+			// multiplication by a constant is a few adders for a SAT solver; two symbolic factors are not
+			if t.W >= 32 && !t.A[0].IsConst() && !t.A[1].IsConst() {
 				return true
 			}
 		}
